@@ -198,11 +198,15 @@ func (t Text) TrimWcwidth(wmax int) Text {
 	var newt Text
 	for _, seg := range t {
 		w := wcwidth.Of(seg.Text)
-		if w >= wmax {
-			newt = append(newt,
-				&Segment{seg.Style, wcwidth.Trim(seg.Text, wmax)})
+		if w > wmax {
+			// Keep the part of this segment that still fits, if any, and stop.
+			if trimmed := wcwidth.Trim(seg.Text, wmax); trimmed != "" {
+				newt = append(newt, &Segment{seg.Style, trimmed})
+			}
 			break
 		}
+		// The segment fits entirely. Keep going even when wmax reaches 0, since
+		// the following segments may start with zero-width characters.
 		wmax -= w
 		newt = append(newt, seg)
 	}
